@@ -1,2 +1,165 @@
+"""C01, part 4: timeline events recorded by the env-guarded hook while partitura itself loads and
+transforms the repository's fixtures, validated by TLC against TimelineLocal (C2S)."""
+import glob
+import json
+import os
+import random
+
+from .. import common, tlc
+
+
+def workloads(tier, rng):
+    import partitura as pt
+    import partitura.score as score
+
+    data = os.path.join(common.REPO, "tests", "data")
+    files = []
+    for pat in ("musicxml/*.xml", "musicxml/*.musicxml", "mei/*.mei", "kern/*.krn", "midi/*.mid", "match/*.match"):
+        files += sorted(glob.glob(os.path.join(data, pat)))
+    files = [f for f in files if os.path.getsize(f) < (60000 if tier == "quick" else 400000)]
+    rng.shuffle(files)
+    if tier == "quick":
+        files = files[:24]
+
+    def transformers(sc):
+        for part in list(sc.parts)[:2]:
+            for fn in (lambda p: score.add_measures(p), lambda p: score.tie_notes(p), lambda p: score.find_tuplets(p),
+                       lambda p: score.fill_rests(p), lambda p: score.unfold_part_maximal(p),
+                       lambda p: score.unfold_part_minimal(p), lambda p: score.sanitize_part(p),
+                       lambda p: score.remove_grace_notes(p)):
+                try:
+                    fn(part)
+                except Exception:
+                    pass  # only the timeline events are of interest here; other properties judge the functions
+        try:
+            score.merge_parts(sc.parts)
+        except Exception:
+            pass
+
+    for f in files:
+        def job(f=f):
+            if f.endswith(".match"):
+                pt.load_match(f, create_score=True)
+                return
+            sc = pt.load_score(f)
+            transformers(sc)
+        yield os.path.relpath(f, data), job
+
+
+def split_traces(events, label):
+    """One trace per Part; a trace is cut where the part was changed outside the hooked API (the
+    number of points before a call differs from the number after the previous call)."""
+    by = {}
+    for e in events:
+        if "part" in e:
+            by.setdefault(e["part"], []).append(e)
+    traces = []
+    stats = {"parts": 0, "cut_bypass": 0, "no_init": 0, "hook_errors": 0}
+    for p, evs in by.items():
+        if evs[0].get("op") != "new":
+            stats["no_init"] += 1
+            continue
+        stats["parts"] += 1
+        q0 = evs[0]["q0"]
+        out = []
+        np_prev = 0
+        for e in evs[1:]:
+            if e["op"] == "hook_error":
+                stats["hook_errors"] += 1
+                break
+            if e["op"] == "new":
+                continue
+            if e["op"] != "tp" and e.get("pre_np") != np_prev:
+                stats["cut_bypass"] += 1
+                break
+            if e["op"] != "tp":
+                np_prev = e["np"]
+            out.append(e)
+        if out:
+            traces.append({"tid": 0, "q0": q0, "events": out, "label": "%s part#%s" % (label, p)})
+    return traces, stats
+
+
 def run(chk):
-    pass
+    common.setup_repo_path()
+    from partitura.utils import _verif
+    if not getattr(_verif, "ENABLED", False):
+        chk.machinery("hooks not enabled (PARTITURA_VERIF=1 must be set before partitura is imported)")
+        return
+    rng = random.Random(chk.seed + 7)
+    traces = []
+    totals = {"parts": 0, "cut_bypass": 0, "no_init": 0, "hook_errors": 0, "files": 0, "load_errors": 0}
+    cap = 12000 if chk.tier == "quick" else 120000
+    nev = 0
+    for label, job in workloads(chk.tier, rng):
+        _verif.start_recording()
+        try:
+            job()
+        except Exception:
+            totals["load_errors"] += 1
+        events = _verif.stop_recording()
+        tr, st = split_traces(events, label)
+        for k, v in st.items():
+            totals[k] += v
+        totals["files"] += 1
+        for t in tr:
+            if nev + len(t["events"]) > cap:
+                t["events"] = t["events"][: max(0, cap - nev)]
+            if t["events"]:
+                traces.append(t)
+                nev += len(t["events"])
+        if nev >= cap:
+            break
+    for i, t in enumerate(traces):
+        t["tid"] = i + 1
+    if not traces:
+        chk.machinery("hook produced no traces")
+        return
+    # shard over several TLC processes (trace validation is sequential per trace)
+    from .c01 import parse_verdicts, _short
+    import concurrent.futures
+    nshard = 1 if chk.tier == "quick" else 8
+    shards = [[] for _ in range(nshard)]
+    for i, t in enumerate(sorted(traces, key=lambda t: -len(t["events"]))):
+        shards[i % nshard].append(t)
+
+    def run_shard(k):
+        wd = tlc.workdir("c01/hook%d" % k)
+        path = os.path.join(wd, "batch.json")
+        with open(path, "w") as f:
+            json.dump(shards[k], f)
+        return tlc.run("TimelineLocalTrace", "TimelineLocal.trace.cfg", "c01/hook%d" % k, workers=1,
+                       env={"TRACE_FILE": path}, expect_violation=True, timeout=3400, heap="6g")
+
+    with concurrent.futures.ThreadPoolExecutor(nshard) as ex:
+        results = list(ex.map(run_shard, [k for k in range(nshard) if shards[k]]))
+    accepted = 0
+    bytid = {t["tid"]: t for t in traces}
+    for res in results:
+        chk.add_mc("TimelineLocalTrace(hook traces)", res, note="trace validation of hook events")
+        if res.violated:
+            chk.violation("hook", "invariant:" + str(res.violated), {"tlc": res.error_trace[:1500]}, op="trace")
+        acc, fails, at = parse_verdicts(res)
+        accepted += len(acc)
+        for tid, fl in fails.items():
+            l, cl = sorted(fl)[0]
+            common_cl = set(cl)
+            for l2, c2 in fl:
+                if l2 == l:
+                    common_cl &= set(c2)
+            t = bytid[tid]
+            ev = t["events"][l - 1]
+            chk.violation("hook", sorted(common_cl or cl)[0],
+                          {"trace": t["label"], "event_index": l, "event": ev, "failing_clauses": cl,
+                           "previous_events": t["events"][max(0, l - 4):l - 1]}, op=ev.get("op"))
+    stalled = [t for t in traces if t["tid"] not in set().union(*[parse_verdicts(r)[0] for r in results])
+               and t["tid"] not in set().union(*[set(parse_verdicts(r)[1]) for r in results])]
+    for t in stalled:
+        chk.violation("hook", "not_a_spec_step", {"trace": t["label"], "first_events": t["events"][:3]}, op="trace")
+    chk.count(nev, validated=accepted)
+    chk.part("hook_traces", traces=len(traces), events=nev, accepted=accepted, **totals)
+    chk.sample({"kind": "hook trace (prefix)", "label": traces[0]["label"], "events": traces[0]["events"][:3]})
+    for t in traces:
+        ops = set(e["op"] for e in t["events"])
+        if len(t["events"]) >= 5:
+            chk.nontrivial("hook:" + t["label"])
